@@ -534,7 +534,7 @@ def check_dv_inf(project: Project, rep):
         elif desc and other_col:
             rep.refuted("GL-DV", fi, r, f"`{ast.unparse(v)}` does not sort column 1 (deaths) of dgms[hom_deg]")
         elif col:
-            rep.refuted("GL-DV", fi, r, f"`{ast.unparse(v)}` is not the descending sort of the death column")
+            rep.unmodelled("GL-DV", fi, r, f"`{ast.unparse(v)[:80]}`: how the death column is ordered was not recognised")
         else:
             rep.unmodelled("GL-DV", fi, r, f"`{ast.unparse(v)[:80]}`: form of the death vector not recognised")
     # GL-INF in PersLandscapeApprox.__init__: decided on the constructor evaluated with a diagram that may hold infinite bars
